@@ -350,6 +350,20 @@ fn run(payload: &str) -> String {
                 }
                 _ => "bad-op".into(),
             },
+            ["nth", h, k] => match (h.parse::<usize>(), k.parse::<usize>()) {
+                (Ok(h), Ok(k)) if k <= 8 => {
+                    sb.drain();
+                    let o = match iters.get_mut(h) {
+                        None => "no-such-iter".to_string(),
+                        Some(it) => match it.nth(k) {
+                            None => "end".to_string(),
+                            Some(r) => show_result(r, &probes),
+                        },
+                    };
+                    format!("{}|opens={}", o, opens(&mut sb))
+                }
+                _ => "bad-op".into(),
+            },
             ["next", h] => match h.parse::<usize>() {
                 Ok(h) => {
                     sb.drain();
